@@ -190,7 +190,12 @@ def run(ctx):
                             with pf.deep():
                                 args = " ".join(render(pf.sym_operand(a)) for a in ct["args"])
                             if "SfTag::Degrees" in args:
-                                e = switch_edges(pf, ct["t"]) if ct["t"] is not None else None
+                                nb = ct["t"]
+                                hops = 0
+                                while nb is not None and hops < 4 and pf.blocks[nb]["term"]["k"] == "goto" and all(x["k"] == "assign" for x in pf.blocks[nb]["stmts"]):
+                                    nb = pf.blocks[nb]["term"]["t"]  # the result is stored in a named condition and tested at the join
+                                    hops += 1
+                                e = switch_edges(pf, nb) if nb is not None else None
                                 if e:
                                     notdeg = e[0] if last_seg(fx.callee(ct)) == "ne" else e[1]
                                     okp = not (set(calls) & pf.reachable([notdeg]))
